@@ -105,7 +105,7 @@ fn describe(name: &str, thorough: bool) -> (String, String) {
         "segments" => ("all namespace / subpath spellings from 12 pieces".into(), t("<= 4 pieces", "<= 6 pieces")),
         "format" | "pkgrules" | "lower" | "preds" => ("U: every Unicode scalar value + short strings".into(), t("strings <= 4", "strings <= 6")),
         "qualmap" => ("O: every reachable content over a key/value universe x every public operation, to a fixpoint".into(), t("7 keys x 3 values", "10 keys x 3 values")),
-        "builder" => ("O: all builder call sequences over a small value universe".into(), t("length <= 2", "length <= 3")),
+        "builder" => ("O: all builder call sequences over a small value universe (+ qualifier-only sequences in depth, + SCALE)".into(), t("length <= 3 (qualifier calls <= 5)", "length <= 4 (qualifier calls <= 6)")),
         "checksum" => ("O: all insertion sequences of (algorithm, bytes)".into(), t("length <= 3", "length <= 4")),
         "protocol" => ("family of 2 x 9 user shapes x T_N".into(), t("N<=2", "N<=3")),
         "nopanic" => ("R: seeded random strings up to 1 MiB".into(), t("400 strings", "4000 strings")),
